@@ -95,6 +95,10 @@ SIGSHAPES = {
     "gw": "pub fn f{n}<D, T{n}>(deps: &D, t: T{n}) -> T{n} where D: ::core::any::Any, T{n}: Clone {{ t }}",
     "lt": "pub fn f{n}<D: 'static, T{n}>(deps: &D, t: &T{n}) -> usize where for<'x> &'x T{n}: ::core::iter::IntoIterator<Item = &'x u8> {{ t.into_iter().count() }}",
     "lw": "pub fn f{n}<'a, T{n}: 'a>(deps: &'a impl ::core::any::Any, t: &'a T{n}) -> &'a T{n} where T{n}: 'a + Clone {{ t }}",
+    # items that are not functions with bodies ride through the parser as opaque tokens (cfg'd off: they are only tokens to rustc too)
+    "bd": "#[cfg(any())] pub fn d{n}(deps: &u8);",
+    "bdc": "#[cfg(any())] pub(crate) unsafe fn d{n}<T>(t: T) -> T where T: Clone;",
+    "bn": "#[cfg(any())] fn d{n}();",
     "as": "pub async fn f{n}<T{n}: Send>(deps: &impl ::core::any::Any, t: T{n}) -> T{n} where T{n}: Clone + Send {{ t }}",
 }
 PATS = {
